@@ -278,11 +278,11 @@ CHECKS += [
     {"id": "C10", "engine": "threads", "level": "model_checking",
      "technique": "preemption-bounded exploration of real threads at bytecode-instruction scheduling points",
      "text": "A scheduler thread submitting 2 (thorough: 3) jobs against the real _start/_monitor/stop/_submit code of the DockerExecutor, the "
-     "AWSBatchExecutor (with and without the job arrayer's thread), the AWSGlueExecutor (monitor + submission thread) and the K8SExecutor running in "
-     "real threads, container / Batch / Glue / Kubernetes API faked in-process; every schedule "
+     "AWSBatchExecutor (with and without the job arrayer's thread), the AWSGlueExecutor (monitor + submission thread), the K8SExecutor and the GCPBatchExecutor "
+     "running in real threads, container / Batch / Glue / Kubernetes / GCP API faked in-process; every schedule "
      "with <=2 / <=1 (quick) or <=3 / <=2 (thorough) preemptions; when the monitor thread has ended every submitted job must have been reported "
-     "exactly once. The lost-job race is a known finding for all four executors.",
-     "note": "GCP Batch shares the start/monitor/stop pattern but is not harnessed. GIL bytecode interleaving is the memory model."},
+     "exactly once. The lost-job race is a known finding for all five executors.",
+     "note": "K8S and GCP Batch are harnessed without job arrays. GIL bytecode interleaving is the memory model."},
 ]
 
 CHECKS += [
